@@ -17,14 +17,21 @@ def build_case(cid, rng):
     depth = rng.randint(1, 6)
     is_async = rng.random() < 0.5
     # signature variety carried by every link: an explicit lifetime with a borrowed argument, ?Send
-    with_lt = rng.random() < 0.5
+    # the extra parameter every link carries: none, a borrowed argument with an explicit lifetime, or a type with nested /
+    # several elided references
+    extra = rng.choice([None, None, ("&'a str", "s.len() as u64", '"abc"'), ("&'a str", "s.len() as u64", '"abc"'),
+                        ("&[&str]", "s.len() as u64", '&["a", "bc"][..]'), ("(&str, &str)", "(s.0.len() + s.1.len()) as u64", '("a", "bc")'),
+                        ("&&str", "s.len() as u64", '&"abc"'), ("&::core::option::Option<&str>", "s.map(|x| x.len()).unwrap_or(0) as u64", '&::core::option::Option::Some("ab")')])
+    with_lt = bool(extra) and "'a" in extra[0]
     no_send = is_async and rng.random() < 0.25
     G = "<'a>" if with_lt else ""
-    SP = ", s: &'a str" if with_lt else ""
-    SA = ", s" if with_lt else ""
+    SP = (", s: " + extra[0]) if extra else ""
+    SA = ", s" if extra else ""
+    ARG = (", " + extra[2]) if extra else ""
+    LAST = ("*b + " + extra[1]) if extra else "*b"
     OPT = ", ?Send" if no_send else ""
     links = []   # kind per link
-    kinds = ["fn", "fn", "mod", "leaf_trait", "inversion", "concrete"] + (["impl_future"] if is_async else [])
+    kinds = ["fn", "fn", "mod", "leaf_trait", "inversion", "concrete"] + (["impl_future"] if (is_async and (with_lt or not extra)) else [])
     L, GT = [], []
     aw = ".await" if is_async else ""
     asy = "async " if is_async else ""
@@ -34,8 +41,8 @@ def build_case(cid, rng):
         links.append(kind)
         last = i == depth
         nxt_trait = "L%d" % (i + 1)
-        call_next_t = ("deps.l%d(*b + %d%s)%s" % (i + 1, i, SA, aw)) if not last else ("*b + s.len() as u64" if with_lt else "*b")
-        call_next_g = ("g%d(deps, *b + %d%s)%s" % (i + 1, i, SA, aw)) if not last else ("*b + s.len() as u64" if with_lt else "*b")
+        call_next_t = ("deps.l%d(*b + %d%s)%s" % (i + 1, i, SA, aw)) if not last else LAST
+        call_next_g = ("g%d(deps, *b + %d%s)%s" % (i + 1, i, SA, aw)) if not last else LAST
         nbox = rng.randint(1, 3)
         boxes = " ".join("let b = ::std::boxed::Box::new(x + %d);" % k for k in range(nbox))
         # a statically delegated helper with a mock option (inert in this build) that returns `impl Iterator`
@@ -85,23 +92,23 @@ def build_case(cid, rng):
          "    let app = ::entrait::Impl::new(App);",
          "    match ::std::env::var(\"C14_MODE\").ok().as_deref() {",
          "        Some(\"none\") => return,",
-         "        Some(\"direct\") => { for _ in 0..10 { let _ = %s; } return; }" % wrap("g1(&app, 1%s)" % (", \"abc\"" if with_lt else "")),
-         "        Some(\"trait\") => { for _ in 0..10 { let _ = %s; } return; }" % wrap("app.l1(1%s)" % (", \"abc\"" if with_lt else "")),
+         "        Some(\"direct\") => { for _ in 0..10 { let _ = %s; } return; }" % wrap("g1(&app, 1%s)" % ARG),
+         "        Some(\"trait\") => { for _ in 0..10 { let _ = %s; } return; }" % wrap("app.l1(1%s)" % ARG),
          "        _ => {}",
          "    }",
          "    ::vrt::trace_enabled(false);",
          "    let a0 = ::vrt::allocs();",
-         "    let r1 = %s;" % wrap("app.l1(1%s)" % (", \"abc\"" if with_lt else "")),
+         "    let r1 = %s;" % wrap("app.l1(1%s)" % ARG),
          "    let a1 = ::vrt::allocs();",
-         "    let r2 = %s;" % wrap("g1(&app, 1%s)" % (", \"abc\"" if with_lt else "")),
+         "    let r2 = %s;" % wrap("g1(&app, 1%s)" % ARG),
          "    let a2 = ::vrt::allocs();",
-         "    let r3 = %s;" % wrap("app.l1(1%s)" % (", \"abc\"" if with_lt else "")),
+         "    let r3 = %s;" % wrap("app.l1(1%s)" % ARG),
          "    let a3 = ::vrt::allocs();",
          "    ::vrt::trace_enabled(true);",
          '    ::vrt::fact("trait_allocs", a1 - a0); ::vrt::fact("direct_allocs", a2 - a1); ::vrt::fact("trait_allocs_again", a3 - a2);',
          '    ::vrt::fact("trait_result", r1); ::vrt::fact("direct_result", r2);',
          "}"]
-    return Case(cid, "\n".join(D) + "\n", meta={"depth": depth, "async": is_async, "links": links, "explicit_lifetime": with_lt, "no_send": no_send,
+    return Case(cid, "\n".join(D) + "\n", meta={"depth": depth, "async": is_async, "links": links, "explicit_lifetime": with_lt, "extra_param": (extra[0] if extra else None), "no_send": no_send,
                                                 "nontrivial": is_async or depth >= 2})
 
 
